@@ -173,4 +173,20 @@ PROPS.update({
                         "dynamic part is schedule sampling, labelled supporting evidence only"],
         "technique": "Lean 4 theorems (linearizability of lock-disciplined objects + regenerated lock facts); race-detector runs as supporting search",
     },
+    "C04": wallet("C04", "Proof (Lean 4), symbolic (Dolev-Yao): a term algebra of seeds, extended keys, key-encryption keys, passphrases, scrypt "
+                  "parameters and secretbox ciphertexts; the table `classOf` says what the code stores under every bucket key name and export "
+                  "field; theorem: from everything the wallet emits (store, exports, log text) no seed, private key, key-encryption key or "
+                  "passphrase is derivable by an observer who can project pairs, open a box with a derivable key and derive a master key "
+                  "from a derivable passphrase; with the private passphrase the master HD key and every child key is derivable. Tie to the "
+                  "code: a recording db.DB logs every Put of generated histories; the harness derives the four keys of every keystore from "
+                  "the passphrases, opens every stored value and export field and reports the class it observes; the Lean driver prints the "
+                  "table's class for the same key name; byte scan of all store files, exports and the node's log output for every secret "
+                  "(raw and hex) after every operation.",
+                  {"props": ["MassVerif.Props.C04"], "drivers_mod": ["MassVerif.Driver.C04"],
+                   "harnesses": [{"name": "walletsecrecy", "pkg": "harness/wallet", "driver": "MassVerif/Driver/C04.lean",
+                                  "quick": {"n": 12, "len": 14, "focus": "C04"}, "thorough": {"n": 300, "len": 40, "focus": "C04"},
+                                  "search": {"n": 60, "len": 20, "focus": "C04"}}],
+                   "level_note": "Symbolic secrecy, not computational: scrypt/secretbox are idealised (a box opens only under its key). Log "
+                                 "output of packages other than the wallet is covered by the byte scan only. Trusted: Lean kernel; the "
+                                 "harness's classifier."}),
 })
